@@ -275,6 +275,7 @@ class Engine:
         self.tracked_fields = {}
         self.seeds = None
         self.contracts = []      # (callee regex, fn) assume-guarantee post-conditions, each proved elsewhere or stated
+        self.pure_calls = []     # (callee regex, result type): uninterpreted pure functions of their arguments' identity
 
     # ---------------------------------------------------------------- relevance slicing
     MODELLED = re.compile(r"(::len$|as Deref>::deref$|as DerefMut>::deref_mut$|as AsRef<.*>>::as_ref$|::as_slice$|::as_path$|cmp::min::|cmp::max::|"
@@ -346,7 +347,7 @@ class Engine:
                 pc_ = parse_call(s) if self.looks_like_call(s) else None
                 if pc_:
                     callee = pc_[1].strip()
-                    if self.MODELLED.search(callee) or (extra_modelled and re.search(extra_modelled, callee)):
+                    if self.MODELLED.search(callee) or (extra_modelled and (re.search(extra_modelled, callee) or re.search(extra_modelled, strip_gen(callee)))):
                         deps.setdefault(root, set()).update(mentions(pc_[2]))
                     else:
                         deps.setdefault(root, set())
@@ -1243,6 +1244,25 @@ class Engine:
             st.pc.append(z3.Or(d == 0, d == 1))
             st.pc.append(z3.Implies(d == 1, z3.ULT(i, ln)))
             return {"#disc": d, "@Some.0": Agg("en_" + site), "@Some.0.0": i}
+        # ---- uninterpreted pure functions: the result depends only on the identity / value of the arguments
+        for pat, rty in self.pure_calls:
+            if re.search(pat, strip_gen(c)):
+                ids = []
+                for (v, pth, ty) in argv:
+                    if isinstance(v, Ref):
+                        tv = st.store.get(v.target)
+                        ids.append(tv.base if isinstance(tv, Agg) else v.target)
+                    elif isinstance(v, Agg):
+                        ids.append(v.base)
+                    elif isinstance(v, z3.ExprRef):
+                        ids.append(v.sexpr())
+                    else:
+                        ids.append("?")
+                name = "uf_%s(%s)" % (re.sub(r"\W+", "_", strip_gen(c))[-40:], ",".join(ids))
+                key = ("uf", name)
+                if key not in self.lazy:
+                    self.lazy[key] = self.fresh_for_type(name, rty)
+                return self.lazy[key]
         # ---- PartialEq on scalars already handled by MIR ops; diverging calls
         if re.search(r"(panicking::panic|panic_fmt|unwrap_failed|expect_failed|process::exit|panic_const|core::panicking|begin_panic|usage|version)\b", c) and dst is None:
             return "diverge"
@@ -1310,6 +1330,26 @@ def parse_call(s):
     if dm and not pre.startswith("<"):
         return dm.group(1), dm.group(2), args, nxt
     return None, pre, args, nxt
+
+
+def strip_gen(c):
+    out, i = "", 0
+    while i < len(c):
+        if c.startswith("::<", i):
+            depth, j = 0, i + 2
+            while j < len(c):
+                if c[j] == "<":
+                    depth += 1
+                elif c[j] == ">" and c[j - 1] != "-":
+                    depth -= 1
+                    if depth == 0:
+                        break
+                j += 1
+            i = j + 1
+        else:
+            out += c[i]
+            i += 1
+    return out
 
 
 def fit(v, ty):
